@@ -72,6 +72,7 @@ class Sched:
         self.reached = threading.Event()
         self._resume = threading.Event()
         self._nth_left = 1
+        self._extra: list = []                  # additional independent pause points (multi-preemption schedules)
         self._delay: tuple | None = None        # (seed, p, max_sleep, predicate)
         self._rngs: dict[int, random.Random] = {}
         self.n_delays = 0
@@ -104,6 +105,19 @@ class Sched:
                 self.reached.set()
                 raise tg[4]
             return None
+        for t2 in self._extra:
+            if not t2.fired and code is t2.code and line == t2.line and t2.pred(threading.current_thread()):
+                with self._lock:
+                    if t2.fired:
+                        continue
+                    t2.nth -= 1
+                    if t2.nth > 0:
+                        continue
+                    t2.fired = True
+                self.lines_hit.add((code.co_qualname, line))
+                t2.reached.set()
+                t2.resume_ev.wait(t2.max_wait)
+                return None
         dl = self._delay
         if dl is not None and dl[3](threading.current_thread()):
             ident = threading.get_ident()
@@ -174,9 +188,21 @@ class Sched:
     def resume(self) -> None:
         self._resume.set()
 
+    def add_pause(self, code: types.CodeType, line: int, thread_name: str | None = None, max_wait: float = 10.0, nth: int = 1) -> "PausePoint":
+        """An additional, independent one-shot pause point (for two-preemption schedules)."""
+        pp = PausePoint(code, line, (lambda t: True) if thread_name is None else (lambda t: t.name == thread_name), max_wait, nth)
+        self._extra.append(pp)
+        return pp
+
+    def clear_pauses(self) -> None:
+        for pp in self._extra:
+            pp.resume_ev.set()
+        self._extra = []
+
     def disarm(self) -> None:
         self._target = None
         self._resume.set()
+        self.clear_pauses()
 
     def delays(self, seed: Any, p: float, max_sleep: float, thread_prefix: str | None = None) -> None:
         pred = (lambda t: True) if thread_prefix is None else (lambda t: t.name.startswith(thread_prefix))
@@ -198,6 +224,17 @@ class Sched:
             pass
         if Sched._installed is self:
             Sched._installed = None
+
+
+class PausePoint:
+    def __init__(self, code, line, pred, max_wait, nth) -> None:
+        self.code, self.line, self.pred, self.max_wait, self.nth = code, line, pred, max_wait, nth
+        self.fired = False
+        self.reached = threading.Event()
+        self.resume_ev = threading.Event()
+
+    def resume(self) -> None:
+        self.resume_ev.set()
 
 
 def storage_modules() -> list[Any]:
